@@ -725,25 +725,43 @@ func c03ReportNode(c *Ctx) {
 				return
 			}
 			seenTpl = true
-			found := false
-			text.Walk(func(s *Sym) {
-				if s.K == symField && s.Name == "Name" && s.X != nil {
-					t := s.X.Type
-					if t == nil && s.X.Obj != nil {
-						t = s.X.Obj.Type()
-					}
-					if nt := namedOf(t); nt != nil && nt.Obj().Name() == "Profile" {
-						found = true
-					}
+			isName := func(s *Sym) bool {
+				if s == nil || s.K != symField || s.Name != "Name" || s.X == nil {
+					return false
 				}
-			})
-			okName = found
+				t := s.X.Type
+				if t == nil && s.X.Obj != nil {
+					t = s.X.Obj.Type()
+				}
+				nt := namedOf(t)
+				return nt != nil && nt.Obj().Name() == "Profile"
+			}
+			// the text after the constant head is the name itself, quoted by the escaping helper and by nothing else: any
+			// other function on the way (TrimSpace, ToLower, a "display" form) makes the reported name differ from the profile's
+			found := false
+			holes := 0
+			parts := []*Sym{text}
+			if text.K == symConcat {
+				parts = text.Parts
+			}
+			for _, part := range parts {
+				if _, isConst := part.ConstString(); isConst {
+					continue
+				}
+				holes++
+				if isName(part) {
+					found = true
+				} else if part.K == symCall && strings.HasSuffix(part.Fn, "misc.RegoString") && len(part.Parts) == 1 && isName(part.Parts[0]) {
+					found = true
+				}
+			}
+			okName = found && holes == 1
 		}
 		for _, fd := range symRoots(gen) {
 			p.SymWalk(gen, fd, proto, nil)
 		}
 		if seenTpl {
-			r.Check(okName, "C03.L5", "profile-name-source", "", `report["profile"] is generated from Profile.Name`, `the report["profile"] rule is not generated from Profile.Name`)
+			r.Check(okName, "C03.L5", "profile-name-source", "", `report["profile"] is generated from Profile.Name`, `the report["profile"] rule is not generated from Profile.Name as it is (quoted by the escaping helper only): the profileName of the report differs from the profile's name for some names`)
 		} else {
 			r.Unknown("C03.L5", "profile-name-source", "", `no template defining report["profile"] found in the generator`)
 		}
